@@ -1765,6 +1765,9 @@ impl FunctionDef {
             )));
         }
 
+        #[cfg(feature = "verif-hooks")]
+        crate::verif_hooks::point(crate::verif_hooks::Site::Call)?;
+
         match self {
             FunctionDef::Lambda(LambdaDef {
                 name,
